@@ -60,6 +60,7 @@ class BSession:
         self.binding = list(profile.get("binding", [0, 0, 1]))
         self.objs = []
         self.steps, self.log, self.fails = [], [], []
+        self.kept_mtime = set()
         self.stats = {}
         # oracle state
         self.ctx_depth = 0
@@ -163,7 +164,10 @@ class BSession:
             f.write(json.dumps(v).encode())
         self.bump += 1
         st = os.stat(self.files[fi])
-        if keep_mtime and st0 is not None and st0.st_size != st.st_size:
+        if keep_mtime and st0 is not None and st0.st_size != st.st_size and fi not in self.kept_mtime:
+            # (at most once per file: two such writes in a row can bring size AND mtime back to what they were when the
+            #  file entered the buffer, which no (size, mtime) fingerprint can notice - outside C07's stated assumption)
+            self.kept_mtime.add(fi)
             # an outside writer that preserves the modification time (cp -p, rsync -t, coarse timestamps): the size differs
             os.utime(self.files[fi], ns=(st0.st_atime_ns, st0.st_mtime_ns))
             self.count("ext-keep-mtime")
@@ -571,6 +575,10 @@ class BSession:
             op = g.list_read(cur) if want_read else g.list_mut(cur, 2)
         else:
             op = g.dict_read(cur) if want_read else g.dict_mut(cur, 2)
+        if op[0] == "DPopitem" and self.strat == "Shm" and self.binding.count(fi) > 1:
+            # which item is last depends on key order, which is unspecified after a root reset merged into the shared
+            # container (the flat model replaces the content there): not comparable, use another operation
+            op = ("DLen",)
         if not want_read and self.g.r.random() < 0.22:
             # overwrite a slot with the value that is == to it but of another JSON type (1 <-> True <-> 1.0, 0 <-> False)
             twin = {1: True, True: 1, 0: False, False: 0}
